@@ -95,6 +95,18 @@ def replay_front(data):
             bad.append("quasirandom(d1, d2, %s, seed) is not the points of seeds seed..seed+d1-1" % method)
         if not np.array_equal(a, cs.quasirandom(5, 3, method=method, seed=4)):
             bad.append("quasirandom not deterministic")
+        # results depend only on the arguments: a caller that rescales its own array in place must not change what the
+        # next caller with the same arguments gets
+        a2 = cs.quasirandom(6, 2, method=method, seed=9)
+        ref = np.array(a2, dtype=float).copy()
+        try:
+            a2 *= 2.0
+            a2 += 1.0
+        except Exception:
+            pass
+        a3 = np.asarray(cs.quasirandom(6, 2, method=method, seed=9), float)
+        if a3.shape != ref.shape or not np.array_equal(a3, ref):
+            bad.append("quasirandom(6, 2, %s, seed=9) after the caller modified the array of an earlier identical call: different points (answers are shared between calls)" % method)
     return bool(bad), bad
 
 
